@@ -9,6 +9,7 @@ package main
 //       "empty", "add" (calls addGoFunction), "lookup-recover" (returns true when found in recoverFunctions),
 //       "name-in:a,b" (switch on the builtin's name returning true for these names), "return-true",
 //       or "other:<normalised source>" for anything else.
+//   *_switch_guards : statements beside the switch that filter what reaches it (expected: none)
 //   allow_list      : the allowList string slice
 //   exclude_rules   : isExcludedOne as (suffix tested, rule) with rule in eq | prefix | prefix-slash | other:<src>
 //   allow_rule      : allowListed's test, classified (eq-or-prefix-slash)
@@ -266,6 +267,32 @@ func (g *mpGen) prefixRule(e ast.Expr, pathVar string) string {
 	return "other:" + g.src(e)
 }
 
+// loopGuards lists every statement of fn that sits beside the instruction type switch and can change which functions,
+// blocks or instructions reach it (an early `continue`, `break`, `return`, a filtering `if`, a re-slicing assignment):
+// the scans are expected to be plain nested range loops around the switch.  Expression statements (logging) and the
+// declaration / final return at the top level are not control flow and are ignored.
+func (g *mpGen) loopGuards(fn *ast.FuncDecl) []string {
+	var out []string
+	var walk func(ss []ast.Stmt, depth int)
+	walk = func(ss []ast.Stmt, depth int) {
+		for _, s := range ss {
+			switch x := s.(type) {
+			case *ast.RangeStmt:
+				walk(x.Body.List, depth+1)
+			case *ast.TypeSwitchStmt, *ast.ExprStmt, *ast.EmptyStmt:
+			case *ast.AssignStmt, *ast.DeclStmt, *ast.ReturnStmt:
+				if depth > 0 {
+					out = append(out, fmt.Sprintf("depth %d: %s", depth, g.src(x)))
+				}
+			default:
+				out = append(out, fmt.Sprintf("depth %d: %s", depth, g.src(x)))
+			}
+		}
+	}
+	walk(fn.Body.List, 0)
+	return out
+}
+
 func mpCoqStr(s string) string { return `"` + strings.ReplaceAll(s, `"`, `""`) + `"` }
 
 func genMayPanic(repo, out string) error {
@@ -331,7 +358,14 @@ func genMayPanic(repo, out string) error {
 			fmt.Fprintf(&b, "(%s, %s, %s)", mpCoqStr(e.instr), mpCoqStr(e.form), mpCoqStr(e.action))
 		}
 		b.WriteString("].\n")
-		b.WriteString("\n")
+		fmt.Fprintf(&b, "Definition %s_guards : list string :=\n  [", it.coq)
+		for i, gd := range g.loopGuards(fn) {
+			if i > 0 {
+				b.WriteString("; ")
+			}
+			b.WriteString(mpCoqStr(gd))
+		}
+		b.WriteString("].\n\n")
 	}
 	b.WriteString("Definition allow_list : list string :=\n  [")
 	for i, a := range allow {
